@@ -3,6 +3,7 @@
 // a spurious library assertion aborts the default build; a result that depends on the configuration fails the oracle in one of them.
 #include "../c02.hpp"
 #include "../machine.hpp"
+#include "../c06based.hpp"
 
 namespace {
 template<class T, int D> void run_machine(vp::Input const& in, vp::Ctx& ctx) {
@@ -28,7 +29,8 @@ struct Prop {
 		ctx.desc << "{assertions on} ";
 #endif
 		vp::Input v4 = in; v4.H = 13; v4.R = 4;  // the view programs read 4-byte records from the same bytes
-		switch(in.head(12) % 4U) {
+		switch(in.head(12) % 5U) {
+			case 4: ctx.desc << "[C06-program on re-based arrays] "; if((in.head(1) & 1U) != 0) { vp::based::run_c06_based<2>(v4, ctx); } else { vp::based::run_c06_based<1>(v4, ctx); } ctx.label("program_C06_based"); break;
 			case 0: ctx.desc << "[C01-program] "; vp::run_c01<vp::CfgRaw>(v4, ctx); ctx.label("program_C01"); break;
 			case 1: ctx.desc << "[C02-program] "; vp::run_c02<vp::CfgRaw>(v4, ctx); ctx.label("program_C02"); break;
 			case 2: ctx.desc << "[C04/C06-program] "; if((in.head(1) & 1U) != 0) { run_machine<int, 2>(in, ctx); } else { run_machine<vp::Tracked, 1>(in, ctx); } ctx.label("program_C04_C06"); break;
